@@ -54,6 +54,12 @@ theorem literal_sites_as_modelled :
       st.addStmt = "vm.memory += size" ∧ st.failMsg = "memory budget exceeded") :=
   ⟨rfl, rfl, by decide⟩
 
+/-- the code refuses a range whose size does not fit an `int` (`if size < 1 { panic("memory budget exceeded") }`
+    inside `if max >= min`, fix 426e727): only with this guard does the model's unbounded `size` agree with Go's
+    64-bit arithmetic, so every theorem below that speaks about `.range` rests on it; removing the guard breaks
+    this theorem -/
+theorem range_overflow_guard_present : Gen.Budget.rangeOverflowGuard = true := by decide
+
 /-- no other case of the dispatch switch mentions `vm.memory` / `vm.limit` (the translator refuses any
     mention outside `switch op`) -/
 theorem only_three_sites : Gen.Budget.casesTouchingBudget = ["OpRange", "OpArray", "OpMap"] := by decide
